@@ -37,6 +37,16 @@ KS = (0, 3, -2.5)
 TOL = 1e-12
 
 
+def near(got, exp):
+    """element-wise closeness relative to each expected entry, with a floor relative to the scale of the whole array
+    (an absolute tolerance would call a legitimately tiny coefficient 'zero')"""
+    got, exp = np.asarray(got, dtype=float), np.asarray(exp, dtype=float)
+    if got.shape != exp.shape:
+        return False
+    scale = float(np.max(np.abs(exp))) if exp.size else 0.0
+    return bool(np.all(np.abs(got - exp) <= 1e-9 * np.abs(exp) + 1e-15 * scale))
+
+
 def c(v):
     return ("c", v)
 
@@ -50,6 +60,18 @@ def add(*ts):
 
 def mul(a, b):
     return ("bin", "*", a, b)
+
+
+def has_optional_lp_form(r):
+    """True when the recipe divides by a constant-valued expression that is not a literal: optyx is free to give such a
+    quotient no finite degree (property C04 only forbids degrees that are too SMALL), i.e. not to treat the model as an
+    LP; when it does treat it as an LP, everything an LP must satisfy applies."""
+    if not isinstance(r, tuple):
+        return False
+    if len(r) == 4 and r[0] == "bin" and r[1] == "/" and isinstance(r[3], tuple) and r[3][0] not in ("c", "C", "k") \
+            and not PR.var_names(r[3]):
+        return True
+    return any(has_optional_lp_form(x) for x in r if isinstance(x, tuple))
 
 
 def spell_scalar(a, k):
@@ -72,6 +94,12 @@ def spell_scalar(a, k):
         ("div-const", add(("bin", "/", mul(c(4 * a0), XA), c(4)), t1, c(k))),
         ("neg-term", add(("un", "neg", mul(c(-a0), XA)), t1, c(k))),
         ("inner-const", add(mul(c(a0), ("bin", "+", XA, c(1))), t1, c(k - a0))),
+        # divisors that are constant-valued but not literal Constants (the pinned tree does not treat these as LPs and
+        # they are then skipped; a tree that does must extract the divided coefficient)
+        ("div-folded-product", add(("bin", "/", mul(c(4 * a0), XA), mul(("C", 2), ("C", 2))), t1, c(k))),
+        ("div-folded-quotient", add(("bin", "/", mul(c(5 * a0), XA), ("bin", "/", ("C", 10), ("C", 2))), t1, c(k))),
+        ("div-folded-neg", add(("bin", "/", mul(c(-2 * a0), XA), ("un", "neg", ("C", 2))), t1, c(k))),
+        ("div-folded-whole", ("bin", "/", add(mul(c(3 * a0), XA), mul(c(3 * a1), XB), c(3 * k)), ("bin", "+", ("C", 1), ("C", 2)))),
     ]
     return out
 
@@ -96,6 +124,13 @@ def spell_vector(a, k):
         ("split-views", add(("mm", ("arr", tuple(float(x) for x in a[:2])), ("slice", V, 0, 2, None)),
                             mul(c(a[2]), ("idx", V, 2)), c(k))),
     ]
+    # linear node kinds beyond sum / c@v: a dot product with an expression vector of Constants, exponent-1 power sums
+    out += [("v.dot(cvec)", add(("dot", V, ("cvec", tuple(float(x) for x in a))), c(k))),
+            ("cvec.dot(v+1)", add(("dot", ("cvec", tuple(float(x) for x in a)), ("vbin", "+", V, c(1))), c(k - sum(a))))]
+    if k == 0:
+        out += [("bare-v.dot(cvec)", ("dot", V, ("cvec", tuple(float(x) for x in a))))]
+    if len(set(a)) == 1:
+        out += [("k*sum(v**1)", add(mul(c(a[0]), ("sum", ("vpow", V, 1))), c(k)))]
     # the coefficient data in other dtypes / as a list of Python ints (coefficient menus are integers)
     ai = tuple(int(x) for x in a)
     out += [("c@v:int64", add(("mm", ("arr", ai, "int"), V), c(k))), ("v@c:int32", add(("mm", V, ("arr", ai, "int32")), c(k))),
@@ -228,6 +263,22 @@ def all_cases(tier):
                                            (("x10", bm), ("x9", bm2)))
                 yield ("bounds-v",), PR.prob(sense, ("mm", ("arr", (1.0, 2.0, 3.0)), V),
                                              (("cmp", ">=", ("sum", V), c(1)),), (("v", bm),))
+    # coefficient MAGNITUDES: the whole model scaled by 1e-11 / 1e9, and legitimately tiny coefficients next to O(1) ones
+    for sc in (1e-11, 1e9):
+        S = c(sc)
+        for lab, r in [spell_scalar((2, -1), 3)[i] for i in (0, 3, 5, 8)]:
+            for sense in ("<=", ">=", "=="):
+                yield ("scaled", lab, sense, sc), PR.prob("min", mul(S, r), (("cmp", sense, mul(S, r), mul(S, c(1.5))),))
+        for lab, r in [spell_vector((2, -1, 1), 3)[i] for i in (0, 2, 3, 4)]:
+            for sense in ("<=", ">=", "=="):
+                yield ("scaled", lab, sense, sc), PR.prob("max", mul(S, r), (("cmp", sense, mul(S, r), mul(S, c(1.5))),
+                                                                                ("cmp", ">=", add(("sum", V), ("var", "zz")), c(1))))
+    tiny = c(3e-12)
+    for sense in ("<=", ">=", "=="):
+        yield ("mixed-scale", "scalar", sense), PR.prob("min", add(mul(tiny, XA), mul(c(2), XB), c(1)),
+                                                        (("cmp", sense, add(mul(c(7e-11), XA), XB), c(1.5)),))
+        yield ("mixed-scale", "vector", sense), PR.prob("min", add(("mm", ("arr", (3e-12, 2.0, 5e-11)), V), ("var", "zz")),
+                                                        (("cmp", sense, add(("mm", ("arr", (1.0, 7e-11, -4e-12)), V), ("var", "zz")), c(1)),))
     # pairs of constraints: row order and ub/eq split
     reps_s = [spell_scalar((2, -1), 3)[i] for i in (0, 5, 8, 13)]
     reps_v = [spell_vector((2, -1, 1), 3)[i] for i in (0, 4, 6, 9)]
@@ -315,7 +366,7 @@ def check_problem(pr, tier, seed, rep=None, want=None, label=None, builder=None)
     coef, const = aff
     cvec = np.asarray(lp.c, dtype=float)
     ev += n + 2
-    if cvec.shape != (n,) or not np.allclose(cvec, coef, rtol=TOL, atol=TOL):
+    if cvec.shape != (n,) or not near(cvec, coef):
         fails.add("objective-coefficients", got=cvec, expected=coef, variables=names)
     if lp.sense != pr[1]:
         fails.add("objective-sense", got=lp.sense, expected=pr[1])
@@ -361,8 +412,9 @@ def check_problem(pr, tier, seed, rep=None, want=None, label=None, builder=None)
             return
         for i, (row, r) in enumerate(zip(rows, rhs)):
             ev += n + 1
-            same = np.allclose(A[i], row, rtol=TOL, atol=TOL) and abs(bvec[i] - r) <= TOL * max(1, abs(r))
-            flipped = eq and np.allclose(A[i], -row, rtol=TOL, atol=TOL) and abs(bvec[i] + r) <= TOL * max(1, abs(r))
+            rs_ = max(float(np.max(np.abs(row))) if len(row) else 0.0, abs(r))
+            same = near(A[i], row) and abs(bvec[i] - r) <= 1e-9 * abs(r) + 1e-15 * rs_
+            flipped = eq and near(A[i], -np.asarray(row)) and abs(bvec[i] + r) <= 1e-9 * abs(r) + 1e-15 * rs_
             if not (same or flipped):
                 fails.add(tag + "-row", index=i, got_row=A[i], got_rhs=float(bvec[i]), expected_row=row, expected_rhs=r,
                           variables=names)
@@ -379,6 +431,18 @@ def check_problem(pr, tier, seed, rep=None, want=None, label=None, builder=None)
         for g, e in zip(got_bounds, exp_bounds)
     ):
         fails.add("bounds", got=got_bounds, expected=exp_bounds, variables=names)
+    # extracting again from the same problem (a fresh extractor, no cache involved) must give the same LP: extraction
+    # must not modify the model it reads
+    try:
+        lp2 = analysis.LinearProgramExtractor().extract(P)
+        for fld in ("c", "A_ub", "b_ub", "A_eq", "b_eq"):
+            a1, a2 = getattr(lp, fld), getattr(lp2, fld)
+            ev += 1
+            if (a1 is None) != (a2 is None) or (a1 is not None and not np.array_equal(np.asarray(a1, dtype=float), np.asarray(a2, dtype=float))):
+                fails.add("second-extraction-differs:" + fld, first=a1, second=a2)
+                break
+    except Exception as ex:
+        fails.add("exception:second-extraction:" + type(ex).__name__, msg=str(ex)[:200])
     # what reaches linprog (capture mode with a scripted answer: no real solve needed)
     try:
         with Seam(script=[lambda call: result(np.zeros(n), fun=0.0)]) as s:
@@ -391,14 +455,24 @@ def check_problem(pr, tier, seed, rep=None, want=None, label=None, builder=None)
             kw = s.calls[0].kw
             sign = -1.0 if pr[1] == "max" else 1.0
             ev += n
-            if not np.allclose(np.asarray(kw["c"], dtype=float), sign * np.asarray(coef), rtol=TOL, atol=TOL):
+            if not near(np.asarray(kw["c"], dtype=float), sign * np.asarray(coef)):
                 fails.add("linprog-c", got=kw["c"], expected=sign * np.asarray(coef))
             for key, rows, rhs in (("A_ub", ub_rows, ub_rhs), ("A_eq", eq_rows, eq_rhs)):
                 bkey = "b" + key[1:]
                 if rows:
-                    if key not in kw or not np.allclose(np.abs(np.asarray(kw[key], dtype=float)), np.abs(np.array(rows)), rtol=TOL, atol=TOL) \
-                            or not np.allclose(np.abs(np.asarray(kw[bkey], dtype=float)), np.abs(np.array(rhs)), rtol=TOL, atol=TOL):
-                        fails.add("linprog-" + key, got=kw.get(key), expected=rows)
+                    gotA = None if kw.get(key) is None else np.asarray(kw[key], dtype=float)
+                    gotb = None if kw.get(bkey) is None else np.asarray(kw[bkey], dtype=float)
+                    expA, expb = np.array(rows, dtype=float), np.array(rhs, dtype=float)
+                    okk = gotA is not None and gotb is not None and gotA.shape == expA.shape and gotb.shape == expb.shape
+                    if okk:
+                        for i_ in range(len(rows)):
+                            same_ = near(gotA[i_], expA[i_]) and near(gotb[i_:i_ + 1], expb[i_:i_ + 1])
+                            flip_ = key == "A_eq" and near(gotA[i_], -expA[i_]) and near(gotb[i_:i_ + 1], -expb[i_:i_ + 1])
+                            if not (same_ or flip_):
+                                okk = False
+                                break
+                    if not okk:
+                        fails.add("linprog-" + key, got=kw.get(key), got_rhs=kw.get(bkey), expected=rows, expected_rhs=rhs)
                 elif kw.get(key) is not None:
                     fails.add("linprog-" + key + "-unexpected", got=kw.get(key))
             gb = [tuple(bd) for bd in kw.get("bounds", [(None, None)] * n)]
@@ -415,13 +489,10 @@ def check_problem(pr, tier, seed, rep=None, want=None, label=None, builder=None)
     return fails
 
 
-def check_deep(n, shared, op, rep=None, want=None):
-    """LP data of term-by-term accumulations deeper than the switch to explicit-stack traversals (n terms, left-deep),
-    as objective and as constraint, with composite terms that are fresh objects or ONE shared object."""
+def deep_model(n, shared, op):
+    """left-deep accumulation of n linear terms -> (expression, names, exact coefficients, exact constant)"""
     import optyx
-    from optyx import analysis
 
-    fails = Fails(want)
     names = ["x[0]", "x[1]", "x[2]", "y"]
     x = optyx.VectorVariable("x", 3, lb=0.0, ub=4.0)
     y = optyx.Variable("y", lb=-1.0, ub=2.0)
@@ -456,6 +527,17 @@ def check_deep(n, shared, op, rep=None, want=None):
         for nm, a in kinds[k][1].items():
             coef[nm] += sgn * a
         const += sgn * kinds[k][2]
+    return acc, names, coef, const, y
+
+
+def check_deep(n, shared, op, rep=None, want=None):
+    """LP data of term-by-term accumulations deeper than the switch to explicit-stack traversals (n terms, left-deep),
+    as objective and as constraint, with composite terms that are fresh objects or ONE shared object."""
+    import optyx
+    from optyx import analysis
+
+    fails = Fails(want)
+    acc, names, coef, const, y = deep_model(n, shared, op)
     tag = {"n": n, "shared_term_objects": shared, "op": op}
     if rep:
         rep.states += 1
